@@ -483,7 +483,7 @@ STANDIN_BOUND = {
                 "1..1999 for es (without the bare 'segundo'), 1..999 for pt: text2digits == digits + marker, and the same inside a sentence",
     "rows": "every word of the grammar tables of all seven languages, alone, through text2digits",
     "zeros": "k in {1,2,3,6} zero words before 4-8 phrases per language",
-    "meta": "sentences harvested from /repo's own test literals under the metamorphic relation of the property",
+    "meta": "sentences harvested from /repo's own test literals under the metamorphic relation of the property (C17: every space replaced by one of twelve kinds / amounts of Unicode whitespace, one kind at a time; C11: upper-cased; C10: two sentences joined by a strong separator)",
 }
 
 
